@@ -150,6 +150,9 @@ type c01Case struct {
 
 // c01Judge compares Check() with the reference semantics; it returns the
 // reference verdict and whether the case was conclusive.
+// c01Acyclic is set while a family runs whose type graphs are acyclic by construction.
+var c01Acyclic bool
+
 func c01Judge(r *mon.Run, p *gen.Project, l gen.Layout, reduce bool) (ref.Verdict, bool) {
 	r.Eval(1)
 	want, findings := ref.EvalProject(p)
@@ -200,6 +203,12 @@ func c01Judge(r *mon.Run, p *gen.Project, l gen.Layout, reduce bool) (ref.Verdic
 				}
 			}
 			r.Violate("rejected-satisfying", key, fmt.Sprintf("Check() fails with value code %d (%s) although every example satisfies its rules", code, mon.Trunc(msg, 160)), cs)
+			return want, true
+		}
+		if code == 1303 && c01Acyclic {
+			// the grid and the shared-choice family build their types from earlier ones only and list no name twice:
+			// "impossible to determine the type due to the recursion" is a false alarm there
+			r.Violate("rejected-satisfying", projectKey(pt), fmt.Sprintf("Check() fails with code 1303 (%s) although no type refers back to itself and every example satisfies its rules", mon.Trunc(msg, 120)), cs)
 			return want, true
 		}
 		r.Inconclusive(fmt.Sprintf("structural-code-%d", code))
@@ -452,6 +461,7 @@ func c01Placements(s leafSpec, v string) []*gen.Project {
 
 func c01Run(r *mon.Run) {
 	// (1) the grid, enumerated completely
+	c01Acyclic = true
 	idx := 0
 	gridCases := 0
 	for _, s := range c01Specs() {
@@ -473,6 +483,7 @@ func c01Run(r *mon.Run) {
 		}
 	}
 	r.Count("grid_cases_this_shard", int64(gridCases))
+	c01Acyclic = false
 	// (2) random projects
 	rng := r.Rand("c01")
 	n := r.Share(r.Pick(150_000, 4_000_000))
@@ -493,6 +504,7 @@ func c01Run(r *mon.Run) {
 	}
 	// (3) several values in one schema judged against choice types that share alternatives (@a = @c | @i,
 	// @b = @c | @t, @d = @a | @t ...): the verdict of one value must not depend on which values were judged before it
+	c01Acyclic = true
 	leaves := []gen.NamedNode{
 		{Name: "@c", Node: gen.Str("abc").R("minLength", "2")},
 		{Name: "@i", Node: gen.Int("5").R("min", "0")},
@@ -509,6 +521,16 @@ func c01Run(r *mon.Run) {
 		for _, l := range leaves {
 			names = append(names, l.Name)
 			reach[l.Name] = []string{l.Name}
+		}
+		// alias types: a scalar of the leaf's kind whose rule is type: "@leaf" (two aliases of one leaf make a diamond)
+		aliasEx := map[string]string{"@c": `"xyz"`, "@i": "7", "@t": "false", "@f": "2.25", "@n": "-7"}
+		for k, na := 0, rng.IntN(3); k < na; k++ {
+			l := leaves[rng.IntN(len(leaves))].Name
+			name := fmt.Sprintf("@y%d", k)
+			ex := aliasEx[l]
+			p.Types = append(p.Types, gen.NamedNode{Name: name, Node: (&gen.Node{Kind: gen.KindOfLiteral(ex), Lit: ex}).R("type", gen.Q(l))})
+			names = append(names, name)
+			reach[name] = []string{l}
 		}
 		for k, nc := 0, 2+rng.IntN(4); k < nc; k++ { // choice types over what exists so far (earlier choices included)
 			a, b := names[rng.IntN(len(names))], names[rng.IntN(len(names))]
